@@ -335,3 +335,156 @@ def value_writer_converts_bool(ctx, rep, rule):
 
 _add("C01", value_writer_converts_bool, "C01.20")
 _add("C20", value_writer_converts_bool, "C20.15")
+
+
+# ---------------------------------------------------------------- C11: what the language calls implicitly on input objects is read-only
+
+PROTOCOL = {"__int__", "__float__", "__index__", "__bool__", "__len__", "__eq__", "__ne__", "__hash__", "__repr__", "__str__", "__iter__",
+            "__getitem__", "__contains__", "__lt__", "__le__", "__gt__", "__ge__", "__format__", "__complex__", "__abs__", "__neg__"}
+
+
+def protocol_methods_read_only(ctx, rep, rule):
+    """int(x), x == y, hash(x), len(x), x[i], x.size .. on an object of the input run a method of its class.  No call
+    edge shows these calls, so the ownership analysis does not follow them; this clause closes the gap at the
+    definitions: such a method (and every property getter) of a class of the IR must not write to its object."""
+    ix, T = ctx.ix, ctx.typer
+    rep.rule(rule, "the conversion, comparison, hashing, container-protocol methods and the property getters of the IR classes do not write to their own object (the analyses call them implicitly on objects of their input)", floor=20)
+    classes = set(T.ir_classes)
+    for q in list(classes):
+        classes |= set(ix.mro(q)) & set(ix.classes)
+    classes |= {q for q in ix.classes if q.startswith("jaqalpaq.core.") and ".algorithm." not in q and not q.startswith("jaqalpaq.core.circuitbuilder") and not q.startswith("jaqalpaq.core.result")}
+    n = 0
+    for q in sorted(classes):
+        ci = ix.classes.get(q)
+        if ci is None or not ci.module.startswith("jaqalpaq.core"):
+            continue
+        for lst in ci.methods_all.values():
+            for fi in lst:
+                getter = fi.is_property and not any(isinstance(d, ast.Attribute) and d.attr in ("setter", "deleter") for d in fi.node.decorator_list)
+                if not (fi.name in PROTOCOL or getter) or not fi.params:
+                    continue
+                n += 1
+                s0 = fi.params[0]
+                bad = None
+                for x in walk_no_nested(fi.node):
+                    if isinstance(x, ast.Attribute) and isinstance(x.ctx, (ast.Store, ast.Del)) and isinstance(x.value, ast.Name) and x.value.id == s0:
+                        bad = x
+                    elif isinstance(x, ast.Subscript) and isinstance(x.ctx, (ast.Store, ast.Del)) and isinstance(x.value, ast.Attribute) and isinstance(x.value.value, ast.Name) and x.value.value.id == s0:
+                        bad = x
+                    elif isinstance(x, ast.Call) and isinstance(x.func, ast.Attribute) and x.func.attr in MUTATORS and isinstance(x.func.value, ast.Attribute) and isinstance(x.func.value.value, ast.Name) and x.func.value.value.id == s0:
+                        bad = x
+                    elif isinstance(x, ast.Call) and isinstance(x.func, ast.Name) and x.func.id in ("setattr", "delattr") and x.args and isinstance(x.args[0], ast.Name) and x.args[0].id == s0:
+                        bad = x
+                    if bad is not None:
+                        break
+                if bad is not None:
+                    rep.violation(rule, construct_of(fi, "writes-to-self"), f"`{ast.unparse(bad)[:60]}` writes to the object inside {fi.name}: every analysis or pass that merely converts, compares, hashes or reads this object (`int(reg.size)` in the used-qubit analysis, `==` in the builder) changes its input -- e.g. a let defined by another let is frozen at today's value, so a later fill_in_let(override) no longer reaches it", f"{fi.path}:{bad.lineno}")
+    rep.analysed["protocol_methods"] = n
+    rep.ok(rule, "core:protocol-methods-and-getters", f"{n} methods examined")
+    if n < 20:
+        from ..index import AnalysisError
+        raise AnalysisError(f"{rule}: only {n} protocol methods / getters found")
+
+
+_add("C11", protocol_methods_read_only, "C11.2")
+
+
+# ---------------------------------------------------------------- C08 / C15: one result object per trace
+
+def one_result_per_trace(ctx, rep, rule):
+    ix = ctx.ix
+    BK = "jaqalpaq.emulator.backend.IndependentSubcircuitsBackend"
+    call = _method(ix, BK, "__call__")
+    rep.rule(rule, "the emulator makes one subcircuit result per discovered trace: every element of `job.subcircuits` is the result of its own `_make_subcircuit(job, index, trace)` call", floor=1)
+    cons = construct_of(call, "one-result-per-trace")
+
+    def is_make(e):
+        return isinstance(e, ast.Call) and isinstance(e.func, ast.Attribute) and e.func.attr == "_make_subcircuit"
+
+    verdict = None
+    for st in ast.walk(call.node):
+        if isinstance(st, ast.Assign) and any(isinstance(t, ast.Attribute) and t.attr == "subcircuits" for t in st.targets):
+            v = st.value
+            if isinstance(v, ast.ListComp):
+                verdict = ("ok", st) if is_make(v.elt) else ("bad", st, ast.unparse(v.elt))
+            elif isinstance(v, ast.List) and not v.elts:
+                verdict = verdict or ("fill", st)
+            elif isinstance(v, ast.Call) and isinstance(v.func, ast.Name) and v.func.id == "list" and v.args and isinstance(v.args[0], ast.GeneratorExp):
+                verdict = ("ok", st) if is_make(v.args[0].elt) else ("bad", st, ast.unparse(v.args[0].elt))
+    if verdict and verdict[0] == "fill":
+        apps = [c for c in ast.walk(call.node) if isinstance(c, ast.Call) and isinstance(c.func, ast.Attribute) and c.func.attr == "append" and isinstance(c.func.value, ast.Attribute) and c.func.value.attr == "subcircuits"]
+        if apps and all(c.args and is_make(c.args[0]) for c in apps):
+            verdict = ("ok", apps[0])
+        elif apps:
+            badc = next(c for c in apps if not (c.args and is_make(c.args[0])))
+            verdict = ("bad", badc, ast.unparse(badc.args[0]) if badc.args else "")
+        else:
+            verdict = None
+    if verdict is None:
+        rep.undecided(rule, cons, "the construction of job.subcircuits is not recognised", call.loc())
+    elif verdict[0] == "ok":
+        rep.ok(rule, cons, "each element is its own _make_subcircuit(..) call", f"{call.path}:{verdict[1].lineno}")
+    else:
+        rep.violation(rule, cons, f"an element of job.subcircuits is `{verdict[2][:50]}`, not the result of its own _make_subcircuit call: two traces can share one result object, which carries ONE index and ONE trace -- the readouts of the later subcircuit are attributed to the earlier one (`result.subcircuits[2].index == 0` for a program whose first and third subcircuit have the same gates)", f"{call.path}:{verdict[1].lineno}", witness="prepare_all; Px q[0]; measure_all; prepare_all; measure_all; prepare_all; Px q[0]; measure_all")
+
+
+_add("C08", one_result_per_trace, "C08.27")
+_add("C15", one_result_per_trace, "C15.21")
+
+
+# ---------------------------------------------------------------- C16: the flag that guards the rollback is not stale
+
+def rollback_flag_not_stale(ctx, rep, rule):
+    """In jaqal_import the handler that forgets a half-imported module and puts the evicted ones back is guarded by
+    a flag computed from `module` (`fresh = module is None`).  If `module` is assigned again between that
+    computation and the handler (the eviction sets it to None), the flag describes the state before the eviction and
+    the rollback is skipped exactly when something was evicted."""
+    from ..cfg import CFG
+    ix = ctx.ix
+    f = _func(ix, "jaqalpaq._import.jaqal_import")
+    rep.rule(rule, "a flag tested by a rollback handler of jaqal_import is computed after the last assignment to the variable it is computed from (no assignment to that variable lies between the flag and the handler)", floor=1)
+    cfg = CFG(f.body)
+    stmts = list(iter_stmts(f.body))
+    n = 0
+    seen_flags = set()
+    for h in ast.walk(f.node):
+        if not isinstance(h, ast.ExceptHandler):
+            continue
+        for st in iter_stmts(h.body):
+            if not (isinstance(st, ast.If) and "sys.modules" in " ".join(ast.unparse(b) for b in st.body)):
+                continue
+            for flag in sorted(_names(st.test)):
+                if flag in seen_flags:
+                    continue
+                seen_flags.add(flag)
+                defs = [a for a in stmts if isinstance(a, ast.Assign) and len(a.targets) == 1 and isinstance(a.targets[0], ast.Name) and a.targets[0].id == flag]
+                if len(defs) != 1:
+                    continue
+                srcs = _names(defs[0].value) - {flag}
+                if not srcs:
+                    continue
+                n += 1
+                cons = construct_of(f, f"rollback-flag:{flag}")
+                dn = cfg.node(defs[0])
+                after = cfg.reachable_from(dn) if dn is not None else set()
+                stale = None
+                for a in stmts:
+                    if a is defs[0] or not isinstance(a, ast.Assign):
+                        continue
+                    if any(isinstance(t, ast.Name) and t.id in srcs for t in a.targets) and cfg.node(a) in after:
+                        # an assignment from the guarded import itself (module = import_module(..)) does not make
+                        # the flag stale: the flag says whether THIS call had to import
+                        if isinstance(a.value, ast.Call):
+                            continue
+                        stale = a
+                        break
+                loc = f"{f.path}:{defs[0].lineno}"
+                if stale is not None:
+                    rep.violation(rule, cons, f"`{ast.unparse(defs[0])}` is computed before `{ast.unparse(stale)}` (line {stale.lineno}): after a reload has evicted the module the flag still says it was there, so when the second stage fails the half-imported module stays in sys.modules and the evicted ones are not put back -- a later, unrelated parse of `from M usepulses *` fails", loc, witness="parse 'from M usepulses *'; parse 'from .M usepulses *' against a directory whose M lacks jaqal_gates (ImportError); parse the first text again")
+                else:
+                    rep.ok(rule, cons, f"`{ast.unparse(defs[0])}` follows every assignment to {sorted(srcs)}", loc)
+    if n == 0:
+        rep.undecided(rule, construct_of(f, "rollback-flag"), "no rollback handler guarded by a computed flag found", f.loc())
+
+
+_add("C16", rollback_flag_not_stale, "C16.35")
